@@ -51,7 +51,8 @@ def quadraticBezier (s c e : Pt2 α) (segments : Nat) : List (Pt2 α) :=
 def cubicBezier (s c1 c2 e : Pt2 α) (segments : Nat) : List (Pt2 α) :=
   (List.range (segments + 1)).map fun i => cubicPoint s c1 c2 e (param i segments)
 
-def half : α := 1 / lit 2
+/-- the literal `0.5` (digits over a power of ten, like every decimal literal of the model) -/
+def half : α := lit 5 / lit 10
 
 def star (nPoints : Nat) (inner outer : α) : List (Pt2 α) :=
   let angle : α := -(lit 360) / cast nPoints
